@@ -98,7 +98,9 @@ func VerifH_v6_alloc() {
 	a, pre, base, L, page, n := v6State()
 	hint, ipform, h, hl, canonical := v6Hint(page)
 
+	vnd.Share("alloc6", a)
 	got, err := a.Allocate(hint)
+	vnd.Unshare()
 
 	post := a.bitmap.Bytes()
 	vnd.Assert(a.bitmap.Len() == uint(n), "C05 v6 bitmap length unchanged")
@@ -164,7 +166,9 @@ func VerifH_v6_free() {
 	vnd.Assume(pl >= page)
 	p := vnd.U128From(pb)
 
+	vnd.Share("alloc6", a)
 	err := a.Free(net.IPNet{IP: net.IP(pb), Mask: net.CIDRMask(pl, 128)})
+	vnd.Unshare()
 
 	post := a.bitmap.Bytes()
 	vnd.Assert(a.bitmap.Len() == uint(n), "C06 v6 bitmap length unchanged")
